@@ -77,6 +77,9 @@ def mkval(v):
         return {'u': v['cm']}
     if isinstance(v, dict) and 'cml' in v:         # column metadata holding a 3.0-only value
         return {'u': [v['cml']]}
+    if isinstance(v, dict) and 'special' in v:     # the library's own singletons are values like any other
+        import hszinc
+        return {'remove': hszinc.REMOVE, 'marker': hszinc.MARKER, 'none': None}[v['special']]
     if isinstance(v, dict) and 'eqv' in v:         # one of a family of values that compare equal but differ
         return EQ_FAMILY[v['eqv'] % len(EQ_FAMILY)]
     return v
@@ -157,6 +160,8 @@ class C16(BaseCheck):
                 v = {'cml': 100 + j} if r.random() < 0.2 else {'cm': 100 + j}
             elif eqfam and r.random() < 0.5:
                 v = {'eqv': r.randrange(6)}
+            elif cls in ('mo', 'gmeta', 'cmeta', 'sd') and r.random() < 0.08:
+                v = {'special': r.choice(['remove', 'marker', 'none'])}
             key = r.choice(keys)
             if op == 'set':
                 ops.append({'op': 'set', 'k': key, 'v': v})
@@ -194,7 +199,8 @@ class C16(BaseCheck):
                 ops.append({'op': 'setdefault', 'k': key, 'v': v})
             elif op == 'update':
                 m = r.choice([1, 2, 3])
-                ops.append({'op': 'update', 'pairs': [[r.choice(keys), ({'cm': 1000 * (jj + 1) + j} if cls == 'gcols' else 1000 * (jj + 1) + j)]
+                ops.append({'op': 'update', 'pairs': [[r.choice(keys), ({'cm': 1000 * (jj + 1) + j} if cls == 'gcols' else
+                                                                    {'special': 'remove'} if r.random() < 0.05 else 1000 * (jj + 1) + j)]
                                                       for jj in range(m)],
                             'as': r.choice(['pairs', 'dict', 'iter'])})
             elif op == 'clear':
@@ -215,11 +221,13 @@ class C16(BaseCheck):
                 ops.append(o)
             elif op == 'extend':
                 m = r.choice([1, 2, 3]) if not bigext else r.choice([3, 31, 32, 33, 48])
-                o = {'op': 'extend', 'pairs': [[r.choice(keys), 1000 * (jj + 1) + j] for jj in range(m)],
+                o = {'op': 'extend', 'pairs': [[r.choice(keys), ({'special': 'remove'} if cls != 'gcols' and r.random() < 0.05 else 1000 * (jj + 1) + j)]
+                                               for jj in range(m)],
                      'as': r.choice(['pairs', 'dict', 'sd', 'gen', 'zip', 'iter', 'sd-rev', 'sd-front'])}
                 if r.random() < p_refuse:
                     o['replace'] = False
                 ops.append(o)
+        case['observe_every'] = k.choice([1, 1, 1, 2, 3, 5, 0])     # 0 = only after the last operation
         if k.random() < 0.3:
             case['two'] = True
             for o in ops:
@@ -566,7 +574,56 @@ class C16(BaseCheck):
             w = (o.get('m', 0) % len(worlds)) if two else 0
             m, grid, refuses, items = worlds[w]
             outs = self._outcomes(items, o, refuses)
-            before = [[k, v] for k, v in m.items()]
+            # ---- quiet steps: in runs with a sparse observation cadence the map is NOT looked at between
+            # operations (a look may itself repair or hide state: lazily swept entries, caches filled by index());
+            # only operations with a single acceptable outcome can be stepped blindly
+            oe = case.get('observe_every', 1)
+            last_step = step == len(case['ops']) - 1
+            if oe != 1 and not last_step and not (oe and step % oe == oe - 1):
+                oks_ = [x for x in outs if x[0] == 'ok']
+                raises_ = [x for x in outs if x[0] == 'raise']
+                if (len(oks_) == 1 and not raises_) or (not oks_ and len(raises_) == 1):
+                    exc = None
+                    ret = None
+                    try:
+                        ret = self._apply(m, o)
+                    except Exception as e:
+                        exc = e
+                    fl = self._flavour(o)
+                    if exc is not None:
+                        ename = type(exc).__name__
+                        events.append((step, fl, 'raise', ename))
+                        skeleton.append(fl + '!')
+                        ok_class = raises_ and any(n == ename or n in [c.__name__ for c in type(exc).__mro__] for n in raises_[0][1])
+                        if not ok_class:
+                            viol = {'clause': 'exc-class' if raises_ else 'exc',
+                                    'detail': {'step': step, 'op': o, 'exc': ename, 'msg': str(exc)[:200], 'quiet_step': True}}
+                            break
+                        items = raises_[0][2]        # unchanged for a single operation, prefix applied for update/extend
+                    else:
+                        events.append((step, fl, 'ok', repr(ret) if o['op'] in ('pop', 'pop_at', 'popitem', 'setdefault') else None))
+                        skeleton.append(fl)
+                        if not oks_:
+                            viol = {'clause': 'not-refused', 'detail': {'step': step, 'op': o, 'expected': sorted(raises_[0][1]), 'quiet_step': True}}
+                            break
+                        x = oks_[0]
+                        if not (x[2] is om.ANY or x[2] == ret or (isinstance(x[2], tuple) and tuple(x[2]) == ret)):
+                            viol = {'clause': 'retval', 'detail': {'step': step, 'op': o, 'returned': repr(ret), 'expected': repr(x[2]), 'quiet_step': True}}
+                            break
+                        if canon_items(x[1]) != canon_items(items):
+                            ok_mut += 1
+                            if o['op'] in POSITIONAL and (o['op'] != 'add' or 'index' in o or 'pos_key' in o):
+                                ok_pos += 1
+                        items = x[1]
+                    worlds[w][3] = items
+                    stats['quiet_steps'] = stats.get('quiet_steps', 0) + 1
+                    continue
+            try:
+                before = [[k, v] for k, v in m.items()]
+            except Exception as e:      # "every key yielded by iteration can be read": a map that cannot be listed is broken
+                viol = {'clause': 'observer', 'detail': {'step': step, 'op': o, 'exc': type(e).__name__, 'msg': str(e)[:200],
+                                                         'why': 'items() raised before the operation', 'model': items}}
+                break
             exc = None
             ret = None
             try:
